@@ -130,6 +130,8 @@ def phase_resolve(ctx, phase):
     colfn = _colfn_outcomes(min(max_arity, 2))
     ctx.behaviours += len(spec)
     ctx.replay_stats["steps_new"] = ctx.replay_stats.get("steps_new", 0) + len(code)
+    # non-trivial: the tuple is accepted or ambiguous (a rejection of an unrelated type tuple is the trivial case)
+    ctx.replay_stats["nontrivial"] = ctx.replay_stats.get("nontrivial", 0) + sum(1 for v in spec.values() if v["o"] != "reject")
     ctx.replay_stats["colfn_constructions"] = len(colfn)
 
     def fail(clause, key, detail, exc=None):
@@ -260,6 +262,7 @@ def phase_castmatrix(ctx, phase):
                 fail("cast-accept", (s, t), f"specification: {want}, mutate(y=C.{cn}.cast({t})): {got} (deferred type check)")
     ctx.behaviours += len(spec)
     ctx.replay_stats["steps_new"] = ctx.replay_stats.get("steps_new", 0) + n
+    ctx.replay_stats["nontrivial"] = ctx.replay_stats.get("nontrivial", 0) + sum(1 for v in spec.values() if v != "unspec")
     return d
 
 
@@ -300,6 +303,7 @@ def phase_impls(ctx, phase):
                                          detail=f"get_impl({opn}, {args}) on {bk} raised {type(e).__name__}: {e}",
                                          moves=[dict(v="resolve", op=opn, args=list(args))], heap_obs=[], beh=dict(op=opn, args=list(args), backend=bk)))
     ctx.replay_stats["steps_new"] = ctx.replay_stats.get("steps_new", 0) + n
+    ctx.replay_stats["nontrivial"] = ctx.replay_stats.get("nontrivial", 0) + n
     ctx.replay_stats["impl_lookups"] = n
     ctx.replay_stats["impl_not_supported"] = unsupported
     return None
@@ -447,6 +451,8 @@ def phase_tracemeta(ctx, phase):
     ctx.behaviours += len(traces) - (1 if canary_idx else 0)
     ctx.replay_stats["trace_events_validated"] = ctx.replay_stats.get("trace_events_validated", 0) + nev
     ctx.replay_stats["steps_new"] = ctx.replay_stats.get("steps_new", 0) + nev
+    ctx.replay_stats["nontrivial"] = ctx.replay_stats.get("nontrivial", 0) + sum(
+        1 for t in traces for e in t if e["verb"] not in ("source", "name", "show", "build_query", "ast_repr") and e["err"] == "")
     ctx.notes += notes
     if len(ctx.samples) < 3 and traces:
         ctx.samples.append(dict(trace_of=traces[0][0]["tid"], events=[dict(verb=e["verb"], args={k: v for k, v in e["args"].items() if v}, names=e["names"]) for e in traces[0][:4]]))
@@ -561,6 +567,7 @@ def phase_flat(ctx, phase):
                                                        "'drift' (the design-level result no longer speaks for the code), not a violation by itself")
         ctx.behaviours += len(paths)
         ctx.replay_stats["steps_new"] = ctx.replay_stats.get("steps_new", 0) + sum(len(p["moves"]) for p in paths)
+        ctx.replay_stats["nontrivial"] = ctx.replay_stats.get("nontrivial", 0) + sum(1 for p in paths if any(p["subquery"]))
     if res["timed_out"]:
         ctx.exhaustive = False
         ctx.notes.append("SqlFlat exploration stopped at its time budget")
